@@ -93,7 +93,6 @@ func checkC05(c *Ctx) {
 	c.boundedAllocation()
 	// errors end that connection only
 	pumpsCloseRing(c)
-	c.oversizedPacketRejected()
 	// monitor discipline: a connection that dies with full rings must not leave a lock held or a sibling asleep
 	lockBalance(c, func(string) bool { return true }, "any")
 	for _, m := range locks.FindMonitors(c.P, c.Locks(), c.Effects()) {
@@ -108,6 +107,7 @@ func checkC05(c *Ctx) {
 	c.flagBitTables()
 	// whatever state the rings are in, their index arithmetic does not panic
 	c.ringMemorySafety()
+	c.oversizedPacketRejected()
 }
 
 // deferredRecover: a function deferred in the entry block calls recover().
@@ -176,35 +176,27 @@ func (c *Ctx) oversizedPacketRejected() {
 		c.R.Unresolved("service.buffer.ReadWait")
 		return
 	}
-	var wait *ssa.Call
-	for _, call := range ir.Calls(fn) {
-		if cl, ok := call.(*ssa.Call); ok && ir.IsMethod(cl.Common(), "sync", "Cond", "Wait") {
-			wait = cl
-		}
-	}
+	// decided on the facts at the wait: the consumer only ever blocks with n <= size (engine B under the ring's
+	// size invariant), however the test in front of the loop is written
 	ok := false
-	for _, b := range fn.Blocks {
-		iff, isIf := b.Instrs[len(b.Instrs)-1].(*ssa.If)
-		if !isIf {
-			continue
-		}
-		a, t := edgeAtom(iff, 0)
-		// "gt:n:<size field>" style is not a constant comparison: look at the structure
-		_ = a
-		_ = t
-		bo, isB := iff.Cond.(*ssa.BinOp)
-		if !isB || bo.Op.String() != ">" {
-			continue
-		}
-		p := ir.PathOf(bo.Y)
-		if len(p.Fields) == 1 && p.Fields[0] == "size" && wait != nil && b.Dominates(wait.Block()) {
-			// the true edge returns
-			for _, in := range b.Succs[0].Instrs {
-				if _, isRet := in.(*ssa.Return); isRet {
-					ok = true
-				}
+	if c.ringInvOK {
+		an := c.ringAnalyzer()
+		waits, proven := 0, 0
+		an.Probe = func(p *bounds.Probe) {
+			call, isCall := p.Instr.(*ssa.Call)
+			if p.Post || !isCall || !ir.IsMethod(call.Common(), "sync", "Cond", "Wait") {
+				return
+			}
+			waits++
+			if len(an.EntryArgs) < 2 || an.EntryArgs[1].Kind != bounds.KInt {
+				return
+			}
+			if size := ringSizeLin(p, fn); size != nil && p.Proves(bounds.LE(an.EntryArgs[1].Int, *size)) {
+				proven++
 			}
 		}
+		an.Run(fn)
+		ok = waits > 0 && waits == proven
 	}
 	c.R.Check(ok, ruleP5, "ReadWait:rejects-packet-larger-than-ring", c.P.Pos(fn.Pos()), "n > size returns an error before the wait loop", "ReadWait does not reject a request larger than the ring before waiting: a packet announcing more than the buffer size stalls that connection's processor forever instead of ending the connection")
 }
